@@ -26,7 +26,7 @@ ASSUMPTIONS = [
 ]
 REQUIRED = {
     "quick": {"chunks_probed_algebraically": 300, "recursion_points": 50000, "class/correlated_config": 40,
-              "class/zero_volatility_market": 25, "class/change_point": 150, "class/shock_change": 30,
+              "class/zero_volatility_market": 18, "class/change_point": 150, "class/shock_change": 30,
               "class/correlation_change": 20, "class/crossed_2_chunks": 28, "statistical_runs": 2,
               "history_prefix_checks": 150, "class/late_start_market": 10,
               "class/refused_parameter_request_then_normal_use": 15, "class/config_run": 10},
